@@ -88,14 +88,23 @@ pub fn run_corpus(
                 .filter(|(_, errs)| !errs.iter().all(mine) && errs.iter().any(|e| e.tag.as_deref() == Some("def")))
                 .filter_map(|(en, _)| {
                     items.iter().find(|i| &i.spec.name == en).map(|i| {
-                        let eo = vmodel::emit::enum_opts(&i.spec, &i.spec.name);
+                        let tn = i.spec.type_name();
+                        let eo = vmodel::emit::enum_opts(&i.spec, &tn);
                         (en.clone(), i.spec.derives.clone(), vmodel::emit::enum_item(&i.spec, &eo).replace("vrt::MyErr", "MyErr"))
                     })
                 })
                 .collect();
             let accepted = if suspects.is_empty() { BTreeMap::new() } else { inproc::accepted_by_macros(env, id, &suspects) };
             for (en, errs) in by_enum {
-                let broken_expansion = accepted.get(&en).copied().unwrap_or(false);
+                // undecided in-process (FromRepr only): a macro's own rejection is a compile_error! without
+                // an error code, an error WITH a code inside the definition is rustc rejecting generated code
+                let broken_expansion = match accepted.get(&en) {
+                    Some(b) => *b,
+                    None => {
+                        let fr_only = items.iter().find(|i| i.spec.name == en).map(|i| i.spec.derives.iter().all(|d| d == "FromRepr")).unwrap_or(false);
+                        fr_only && errs.iter().any(|e| e.tag.as_deref() == Some("def") && e.code.is_some())
+                    }
+                };
                 let is_violation = match plan.policy {
                     Policy::AllErrors => true,
                     Policy::TaggedOnly => errs.iter().all(mine) || broken_expansion,
@@ -208,7 +217,7 @@ fn reduce(env: &Env, id: &str, v: &Violation, seed: u64) -> EnumSpec {
 
 fn source_of(id: &str, spec: &EnumSpec) -> String {
     if id == "C19" {
-        return vmodel::emit::enum_def(spec, &vmodel::emit::enum_opts(spec, &spec.name));
+        return vmodel::emit::enum_def(spec, &vmodel::emit::enum_opts(spec, &spec.type_name()));
     }
     props::module_for(id, spec).src.text
 }
